@@ -313,7 +313,13 @@ class TLSPeer(BasePeer):
         self.plain_out += data
         if not self.handshaken:
             raise HarnessError("peer wrote application data before the TLS handshake finished")
-        self.obj.write(data)
+        try:
+            self.obj.write(data)
+        except ssl.SSLError as e:
+            # the TLS session is already shut down (close_notify exchanged): a real server's write fails too
+            self.tls_error = self.tls_error or f"write after shutdown: {getattr(e, 'reason', e)}"
+            self.dead = True
+            return
         self._flush()
 
     def _finish(self, how):
